@@ -7,7 +7,7 @@ goast_types = [it for it in DCE.items if isinstance(it, Adt)]
 
 UNIT = Unit(
     name="U-CEFFECT",
-    properties=["C09"],
+    properties=["C09", "C17"],
     rules=[("strip", "anf::"), ("strip", "goast::")],
     describe="go::compile::compile_cexpr_effect: a complex expression in effect position (value discarded) still emits exactly one Go statement "
              "when it is a call, a dyn-trait call or `go`; control-flow forms never reach its panic!",
